@@ -23,7 +23,8 @@ CFG = {
                   "exit code must be identical. Lean: in the printer model the streaming printer over a cursor "
                   "(first_child / next_sibling / value) equals the printer over the owned value (stream_eq_materialise).",
     "level_note": "The two evaluators are not modelled; the tie is differential. Classes other than `core` inject one "
-                  "presentation feature each and are the class predicates of the recorded findings.",
+                  "presentation feature each and are the class predicates of the recorded findings; `--indent 0` and raw "
+                  "DEL (repaired findings) are part of `core`. Under --preserve-input only the neutral spelling is compared.",
     "technique": "differential run of the CLI routes + Lean structural-induction theorem on the printer model",
     "variants": [{"features": [], "env": {"SV_CLI": _CLI}}],
     "needs_cli": True,
